@@ -159,6 +159,11 @@ META_VALUES = {
     "I1": {"k": 1},
     "S1": {"k": "1"},
     "AX": {"k": "A", "x": 1},
+    # the same value as AX with the keys inserted in the other order, also
+    # one level down
+    "XA": {"x": 1, "k": "A"},
+    "N1": {"k": "A", "sub": {"p": 1, "q": [1, 2]}},
+    "N2": {"sub": {"q": [1, 2], "p": 1}, "k": "A"},
     "F": {"flag": False, "tag": "", "n": None},
     # nested lists that are proper prefixes of one another
     "L1": {"k": "A", "seen": [7]},
